@@ -21,7 +21,7 @@ def run(ctx):
     rng = random.Random(ctx["seed"] + 101)
     pool = P.corpus() + P.bench_fens()
     pairs = []
-    for a, b in P.collision_pairs():
+    for a, b in P.collision_pairs(near=True):
         pairs += [(a, b), (b, a)]
     for _ in range(60 if ctx["tier"] == "quick" else 1500):
         a, b = rng.choice(pool), rng.choice(pool)
